@@ -366,6 +366,9 @@ func main() {
 	}
 	var scs []*mcx.Scenario
 	d := ev.Pick(r, 3, 4)
+	if r.Lite() {
+		d = 2
+	}
 	scs = append(scs, scenario(cfg{Reg: "205obs", Depth: d}))
 	scs = append(scs, scenario(cfg{Reg: "205obs", Depth: d - 1, CON: true}))
 	for _, reg := range []string{"203obs", "205", "404", "none"} {
@@ -373,7 +376,7 @@ func main() {
 	}
 	scs = append(scs, scenario(cfg{Reg: "205obs", Depth: ev.Pick(r, 2, 3), Two: true}))
 	scs = append(scs, scenario(cfg{Reg: "205obs", Depth: 2, Preempt: 1}))
-	scs = append(scs, scenario(cfg{Reg: "205obs", Depth: 1, Conc: true, Preempt: ev.Pick(r, 2, 3)}))
+	scs = append(scs, scenario(cfg{Reg: "205obs", Depth: 1, Conc: true, Preempt: map[bool]int{true: 1, false: ev.Pick(r, 2, 3)}[r.Lite()]}))
 	sum := mcx.Explore(r, scs, mcx.Config{Wall: ev.Pick(r, 4*time.Minute, 30*time.Minute)})
 	mcx.Report(r, scs, sum)
 	// vacuity guard: some explored stream must have delivered several notifications
